@@ -1,7 +1,7 @@
 //! C10: HTML output is balanced and properly nested. K: shared renderer correspondence.
 //! S: the Lean `balanced` oracle (tag-stack machine over `lexHtml`) on the real output.
-use crate::gen::{mixed_doc, Corpus};
-use crate::htmlk::{doc_input, html_request, parse_and_render, parse_doc_input};
+use crate::gen::Corpus;
+use crate::htmlk::{gen_case, html_request, Src};
 use crate::model::{Batch, Model};
 use crate::opts::Opts;
 use crate::report::Report;
@@ -19,9 +19,9 @@ fn constrain(o: &mut Opts, r: &mut Rng) {
     }
 }
 
-pub fn push_case<'a>(bt: &mut Batch<'a>, rep: &mut Report, o: Opts, md: String, srcname: &'static str) {
-    let input = doc_input(&o, &md);
-    match parse_and_render(&md, &o) {
+pub fn push_case<'a>(bt: &mut Batch<'a>, rep: &mut Report, o: Opts, src: Src, srcname: &'static str) {
+    let input = src.input(&o);
+    match src.render(&o) {
         Err(p) => rep.fail("render-total", "panic", input, p),
         Ok(r) => {
             rep.count(&format!("gen-{}", srcname));
@@ -49,6 +49,11 @@ pub fn push_case<'a>(bt: &mut Batch<'a>, rep: &mut Report, o: Opts, md: String, 
                     rep.disagree("html-bytes", i1, crate::util::diff_window(&h1, &m));
                 }
             });
+            // Raw nodes are passed through under every option: outside the property's precondition.
+            if r.kinds.iter().any(|k| *k == "raw") {
+                rep.count("skipped-oracle-raw-node");
+                return;
+            }
             bt.push(format!("htmlbal {}", hex(&h2)), move |resp, rep| {
                 rep.s_evals += 1;
                 if resp != "1" {
@@ -70,13 +75,13 @@ pub fn run(cfg: &Cfg, rep: &mut Report) {
         let mut bt = Batch::new();
         let chunk = 3000.min(n - done);
         for _ in 0..chunk {
-            let (md, src) = mixed_doc(&mut rng, &corpus);
+            let (src, name) = gen_case(&mut rng, &corpus);
             let mut o = Opts::random(&mut rng);
             constrain(&mut o, &mut rng);
-            if done < 3 {
-                rep.sample(format!("doc {:?} opts [{}]", show(md.as_bytes()), o.describe()));
+            if done < 3 || (done < 400 && name == "direct-tree" && rep.samples.len() < 5) {
+                rep.sample(format!("{} opts [{}]", src.show(), o.describe()));
             }
-            push_case(&mut bt, rep, o, md, src);
+            push_case(&mut bt, rep, o, src, name);
             done += 1;
         }
         bt.run(&m, rep);
@@ -84,11 +89,11 @@ pub fn run(cfg: &Cfg, rep: &mut Report) {
 }
 
 pub fn replay(kind: &str, input: &str) -> Result<Option<String>, String> {
-    let (o, md) = parse_doc_input(input).ok_or("bad replay input")?;
+    let (o, src) = Src::parse_input(input).ok_or("bad replay input")?;
     let m = Model::from_env();
     let mut rep = Report::new("C10");
     let mut bt = Batch::new();
-    push_case(&mut bt, &mut rep, o, md, "replay");
+    push_case(&mut bt, &mut rep, o, src, "replay");
     bt.run(&m, &mut rep);
     for c in rep.s_fail.iter().chain(rep.k_disagree.iter()) {
         if kind.is_empty() || c.kind == kind {
